@@ -273,7 +273,7 @@ def seq(ctx, shard, nshards):
     V = Viol(sub, "C15")
     rnd = random.Random(ctx.sub_seed("c15", shard))
     B = boundary()
-    for it in range(1800 if not ctx.thorough else 20000):
+    for it in range(3000 if not ctx.thorough else 24000):
         case = gen_case(rnd, B)
         f = judge(ctx, case)
         sub.evaluations += 1
